@@ -72,6 +72,8 @@ def main():
         demo = open(f'{d}/demo_test.go', errors='replace').read()
         pkg = (re.search(r'^package (\w+)', demo, flags=re.M) or [None, '?'])[1]
         sub = 'ast' if pkg.startswith('ast') else '.'
+        if os.path.exists(f'{d}/DEMO_DIR'):
+            sub = open(f'{d}/DEMO_DIR').read().strip()
         meta = {
             'id': sid,
             'property_broken': sid.split('-')[0],
